@@ -197,39 +197,60 @@ theorem opAssignCodeJ_eq (nk : NK) (op : BinOp) (ti tb : ITy) (offA tmp : Int) (
       opAssignNFJ nk ti (binopOperandType op ti tb) (binopType op ti tb) offA tmp cB
         (if op.isShift then [] else castSeq tb (binopOperandType op ti tb)) := rfl
 
-/-- **`A op= B`** through the hidden pointer temporary `k1`, `B` possibly computed with jumps -/
-theorem EvJ.opassign {cB : List JI} {castB : List Ins} {σ σ1 : Env} {W : List Nat} {k0 k1 d i : Nat} {ti tb t tres : ITy}
-    {x vb y : Int} {nk : NK} {Rr : BitVec 64 → Prop}
-    (hti : σ.tys[i]? = some ti)
-    (heB : EvJ P off toff K cB σ σ1 (fun r => Represents tb r vb) W k0 k1 d)
+/-- a suffix of the access path through the temporary (`add $offset, %rax` for a member, nothing otherwise): adds `dd` to
+    `%rax` and touches nothing else but registers and flags -/
+def DS (dsuf : List Ins) (dd : Int) : Prop :=
+  ∀ s : State, ∃ s', X86.run dsuf s = some s' ∧ s'.get .rax = s.get .rax + BitVec.ofInt 64 dd ∧ Same s s'
+
+theorem DS.nil : DS [] 0 := fun s => ⟨s, rfl, by simp, Same.refl s⟩
+
+/-- `lea tmp(%rbp), %rax; mov (%rax), %rax; <dsuf>`: the pointer kept in the temporary, plus the member offset -/
+theorem via_load {dsuf : List Ins} {dd : Int} (hds : DS dsuf dd) (s : State) (d : Int) :
+    ∃ s', X86.run (iLea d :: loadSeq .u64 ++ dsuf) s = some s' ∧
+      s'.get .rax = s.read64 (addrOf (s.get .rbp) d) + BitVec.ofInt 64 dd ∧ Same s s' := by
+  obtain ⟨s1, r1, a1, sm1⟩ := tmp_load s d
+  obtain ⟨s2, r2, a2, sm2⟩ := hds s1
+  exact ⟨s2, run_append_some r1 r2, by rw [a2, a1], sm1.trans sm2⟩
+
+/-- the code of `*tmp = *tmp op B` resp. `(*tmp).x = (*tmp).x op B` after `tmp` has been set -/
+def opAssignTail (nk : NK) (ti t tres : ITy) (tmp : Int) (dsuf : List Ins) (cB : List JI) (castB : List Ins) : List JI :=
+  J (iLea tmp :: loadSeq .u64 ++ dsuf) ++ (JI.ins iPush :: ((cB ++ J castB) ++ (JI.ins iPush ::
+    J ((iLea tmp :: loadSeq .u64 ++ dsuf) ++ (loadSeq ti ++ (castSeq ti t ++ (iPopRdi :: (opSeq nk t ++
+      (castSeq tres ti ++ storeSeq ti)))))))))
+
+/-- **`*tmp = *tmp op B`** from a state in which the hidden temporary `kt` holds `ap`, the address of the object `i` minus the
+    member offset `dd`: the right operand (with its side effects), the load through `tmp`, the operator, the conversion and the
+    store through the pushed address -/
+theorem opassign_from {cB : List JI} {castB dsuf : List Ins} {σ0 σ1 : Env} {W : List Nat} {k0 k1 kt d i : Nat}
+    {ti tb t tres : ITy} {x vb y dd : Int} {nk : NK} {Rr : BitVec 64 → Prop}
+    (hti : σ0.tys[i]? = some ti)
+    (heB : EvJ P off toff K cB σ0 σ1 (fun r => Represents tb r vb) W k0 k1 d)
     (hcastB : ∀ s, Represents tb (s.get .rax) vb → ∃ s', X86.run castB s = some s' ∧ Rr (s'.get .rax) ∧ Same s s')
     (hx : σ1.vals[i]? = some x)
     (hop : ∀ s, Represents t (s.get .rax) (convert t x) → Rr (s.get .rdi) →
       ∃ s', X86.run (opSeq nk t) s = some s' ∧ Represents tres (s'.get .rax) y ∧ Same s s')
-    (hk0 : k0 ≤ k1) (hk1 : k1 < K) :
-    EvJ P off toff K (opAssignNFJ nk ti t tres (off i) (toff k1) cB castB) σ (σ1.set i (convert ti y))
-      (fun r => Represents ti r (convert ti y)) (i :: W) k0 (k1 + 1) (max (d + 1) 2) := by
-  refine ⟨heB.1, ?_⟩
-  intro m n B hP l hd hsp hB hH
-  obtain ⟨n', rfl⟩ : ∃ n', n = n' + 2 := ⟨n - 2, by omega⟩
+    (hds : DS dsuf dd) (hk : k1 ≤ kt) (hkt : kt < K)
+    (m : State) (n' B : Nat) (hP : P (m.get .rbp)) (l : Lay σ0.tys off toff K B (m.get .rbp)) (hd : d ≤ n' + 1)
+    (hsp : 8 * (n' + 2) ≤ (m.get .rsp).toNat) (hB : (m.get .rsp).toNat ≤ B) (hH : Holds off σ0 m)
+    (ap : BitVec 64) (tmp4 : m.read64 (addrOf (m.get .rbp) (toff kt)) = ap)
+    (hap : ap + BitVec.ofInt 64 dd = addrOf (m.get .rbp) (off i)) :
+    ∃ m', JRun (opAssignTail nk ti t tres (toff kt) dsuf cB castB) m m' ∧ Represents ti (m'.get .rax) (convert ti y) ∧
+      Holds off (σ1.set i (convert ti y)) m' ∧ Unch σ0.tys off toff (i :: W) k0 k1 m m' := by
   -- addresses
-  have hT := l.tmp_lo k1 hk1
+  have hT := l.tmp_lo kt hkt
   have hA := l.var_lo i ti hti
-  -- tmp = &A
-  obtain ⟨s4, r4, tmp4, sp4, bp4, mem4⟩ := tmp_store m (toff k1) (off i) (by omega) hT.2
-  have H4 : Holds off σ s4 := hH.of_tmp l hk1 bp4 (fun x hxB hout => mem4 x (by omega) hout)
-  -- address of *tmp, pushed
-  obtain ⟨s5, r5, ax5, same5⟩ := tmp_load s4 (toff k1)
-  rw [bp4, tmp4] at ax5
-  obtain ⟨s6, r6, sp6, bp6, _, top6, spn6, mem6⟩ := push_rax s5 (by rw [same5.rsp, sp4]; omega)
-  rw [same5.rsp, sp4] at sp6 spn6 mem6 top6
-  rw [same5.rbp, bp4] at bp6
+  -- address of the object through tmp, pushed
+  obtain ⟨s5, r5, ax5, same5⟩ := via_load hds m (toff kt)
+  rw [tmp4, hap] at ax5
+  obtain ⟨s6, r6, sp6, bp6, _, top6, spn6, mem6⟩ := push_rax s5 (by rw [same5.rsp]; omega)
+  rw [same5.rsp] at sp6 spn6 mem6 top6
+  rw [same5.rbp] at bp6
   rw [ax5] at top6
-  have l6 : Lay σ.tys off toff K B (s6.get .rbp) := by rw [bp6]; exact l
-  have H6 : Holds off σ s6 := by
-    have l5 : Lay σ.tys off toff K B (s5.get .rbp) := by rw [same5.rbp, bp4]; exact l
-    exact (H4.same same5).of_ge l5 (by rw [bp6, same5.rbp, bp4]) (fun x hxB => mem6 x (Or.inr (by omega)))
-  have tmp6 : s6.read64 (addrOf (m.get .rbp) (toff k1)) = addrOf (m.get .rbp) (off i) := by
+  have l6 : Lay σ0.tys off toff K B (s6.get .rbp) := by rw [bp6]; exact l
+  have H6 : Holds off σ0 s6 := by
+    have l5 : Lay σ0.tys off toff K B (s5.get .rbp) := by rw [same5.rbp]; exact l
+    exact (hH.same same5).of_ge l5 (by rw [bp6, same5.rbp]) (fun x hxB => mem6 x (Or.inr (by omega)))
+  have tmp6 : s6.read64 (addrOf (m.get .rbp) (toff kt)) = ap := by
     rw [← tmp4]
     refine (read64_keep hT.2 (fun x h1 _ => ?_)).trans (by rw [read64_keep hT.2 (fun x _ _ => congrFun same5.mem x)])
     exact mem6 x (Or.inr (by omega))
@@ -237,20 +258,20 @@ theorem EvJ.opassign {cB : List JI} {castB : List Ins} {σ σ1 : Env} {W : List 
   obtain ⟨s7, r7, p7, H7, u7⟩ := heB.2 s6 (n' + 1) B (by rw [bp6]; exact hP) l6 (by omega) (by rw [spn6]; omega) (by rw [spn6]; omega) H6
   have slotA : (m.get .rsp - 8).toNat = (m.get .rsp).toNat - 8 := by rw [← sp6]; exact spn6
   have keep7 : ∀ a : BitVec 64, (s6.get .rsp).toNat ≤ a.toNat → a.toNat + 8 ≤ 2 ^ 64 →
-      (a.toNat + 8 ≤ B ∨ a = addrOf (m.get .rbp) (toff k1)) → s7.read64 a = s6.read64 a := by
+      (a.toNat + 8 ≤ B ∨ a = addrOf (m.get .rbp) (toff kt)) → s7.read64 a = s6.read64 a := by
     intro a ha1 ha2 ha3
     refine read64_keep ha2 (fun x h1 h2 => u7.mem x (by omega) ?_ ?_)
     · rcases ha3 with h | h
       · exact l6.not_inVar _ _ (by omega)
       · rintro ⟨j, tj, _, htj, hj1, hj2⟩
-        have := l.var_tmp j tj k1 htj hk1
+        have := l.var_tmp j tj kt htj hkt
         unfold sep at this; rw [bp6] at hj1 hj2; rw [h] at h1 h2; omega
     · rcases ha3 with h | h
       · exact l6.not_inTmp _ _ (by omega) _ (by omega)
-      · rintro ⟨k, _, hk, hj1, hj2⟩
-        have := l.tmp_tmp k k1 (by omega) hk1 (by omega)
+      · rintro ⟨k, _, hk', hj1, hj2⟩
+        have := l.tmp_tmp k kt (by omega) hkt (by omega)
         unfold sep at this; rw [bp6] at hj1 hj2; rw [h] at h1 h2; omega
-  have tmp7 : s7.read64 (addrOf (m.get .rbp) (toff k1)) = addrOf (m.get .rbp) (off i) := by
+  have tmp7 : s7.read64 (addrOf (m.get .rbp) (toff kt)) = ap := by
     rw [keep7 _ (by rw [spn6]; omega) hT.2 (Or.inr rfl)]; exact tmp6
   have top7 : s7.read64 (m.get .rsp - 8) = addrOf (m.get .rbp) (off i) := by
     rw [keep7 _ (by rw [spn6, slotA]; omega) (by rw [slotA]; omega) (Or.inl (by rw [slotA]; omega))]; exact top6
@@ -267,11 +288,11 @@ theorem EvJ.opassign {cB : List JI} {castB : List Ins} {σ σ1 : Env} {W : List 
     intro a ha1 ha2
     refine (read64_keep ha2 (fun x h1 _ => mem8 x (Or.inr (by omega)))).trans
       (read64_keep ha2 (fun x _ _ => congrFun same7.mem x))
-  have tmp8 : s8.read64 (addrOf (s8.get .rbp) (toff k1)) = addrOf (m.get .rbp) (off i) := by
+  have tmp8 : s8.read64 (addrOf (s8.get .rbp) (toff kt)) = ap := by
     rw [bp8', keep8 _ (by omega) hT.2]; exact tmp7
-  -- *tmp, loaded and converted
-  obtain ⟨s9, r9, ax9, same9⟩ := tmp_load s8 (toff k1)
-  rw [tmp8] at ax9
+  -- the object through tmp, loaded and converted
+  obtain ⟨s9, r9, ax9, same9⟩ := via_load hds s8 (toff kt)
+  rw [tmp8, hap] at ax9
   have hm9 : MemHolds ti s9 (s9.get .rax) x := by
     rw [ax9]
     have := H8 i ti x (by rw [heB.1]; exact hti) hx
@@ -281,7 +302,7 @@ theorem EvJ.opassign {cB : List JI} {castB : List Ins} {σ σ1 : Env} {W : List 
   have same10 := run_safe _ _ _ (loadSeq_safe ti) r10
   obtain ⟨s11, r11, p11, same11⟩ := cast_run ti t s10 x p10
   have same8_11 : Same s8 s11 := (same9.trans same10).trans same11
-  -- pop, operator, conversion to A's type
+  -- pop, operator, conversion to the object's type
   obtain ⟨s12, r12, di12, sp12, bp12, ax12, mem12⟩ := pop_rdi s11
   have hdi : Rr (s12.get .rdi) := by
     rw [di12, same8_11.rsp, sp8]
@@ -309,11 +330,11 @@ theorem EvJ.opassign {cB : List JI} {castB : List Ins} {σ σ1 : Env} {W : List 
     H14.set l14 (by rw [heB.1]; exact hti) bp15 (by rw [bp14]; exact hm15)
       (fun x _ hx => mem15 x (by rw [bp14] at hx; exact hx))
   refine ⟨s15, ?_, by rw [ax15]; exact p14, H15, ?_⟩
-  · unfold opAssignNFJ
-    exact JRun.append (JRun.ins r4) (JRun.append (JRun.ins r5) (JRun.cons_ins (step_of_run_single r6) (JRun.append
+  · unfold opAssignTail
+    exact JRun.append (JRun.ins r5) (JRun.cons_ins (step_of_run_single r6) (JRun.append
       (JRun.append r7 (JRun.ins r7')) (JRun.cons_ins (step_of_run_single r8) (JRun.ins (run_append_some r9
         (run_append_some r10 (run_append_some r11 (run_cons_some (step_of_run_single r12) (run_append_some r13
-          (run_append_some r14 r15)))))))))))
+          (run_append_some r14 r15))))))))))
   · refine ⟨?_, ?_, ?_⟩
     · rw [sp15, rsp14, sub8_add8]
     · rw [bp15, bp14]
@@ -324,18 +345,54 @@ theorem EvJ.opassign {cB : List JI} {castB : List Ins} {σ σ1 : Env} {W : List 
         · by_cases h2 : (addrOf (m.get .rbp) (off i)).toNat + ti.size ≤ z.toNat
           · exact Or.inr h2
           · exact absurd ⟨i, ti, List.mem_cons_self, hti, by omega, by omega⟩ hv
-      have hnotT : z.toNat < (addrOf (m.get .rbp) (toff k1)).toNat ∨ (addrOf (m.get .rbp) (toff k1)).toNat + 8 ≤ z.toNat := by
-        by_cases h1 : z.toNat < (addrOf (m.get .rbp) (toff k1)).toNat
-        · exact Or.inl h1
-        · by_cases h2 : (addrOf (m.get .rbp) (toff k1)).toNat + 8 ≤ z.toNat
-          · exact Or.inr h2
-          · exact absurd ⟨k1, hk0, by omega, by omega, by omega⟩ ht
       rw [mem15 z hnotA, mem14, mem8 z (Or.inr (by omega)), congrFun same7.mem z]
       rw [u7.mem z (by rw [spn6]; omega)
         (by rw [bp6]; exact fun hh => hv (inVar_mono hh (fun j hj => List.mem_cons_of_mem _ hj)))
-        (by rw [bp6]; exact fun hh => ht (inTmp_mono hh (Nat.le_refl _) (by omega)))]
-      rw [mem6 z (Or.inr hz), congrFun same5.mem z]
-      exact mem4 z hz hnotT
+        (by rw [bp6]; exact ht)]
+      rw [mem6 z (Or.inr hz)]
+      exact congrFun same5.mem z
+
+theorem opAssignNFJ_eq (nk : NK) (ti t tres : ITy) (offA tmp : Int) (cB : List JI) (castB : List Ins) :
+    opAssignNFJ nk ti t tres offA tmp cB castB =
+      J ([iLea tmp, iPush, iLea offA] ++ storeSeq .u64) ++ opAssignTail nk ti t tres tmp [] cB castB := by
+  simp [opAssignNFJ, opAssignTail]
+
+/-- **`A op= B`** through the hidden pointer temporary `k1`, `B` possibly computed with jumps -/
+theorem EvJ.opassign {cB : List JI} {castB : List Ins} {σ σ1 : Env} {W : List Nat} {k0 k1 d i : Nat} {ti tb t tres : ITy}
+    {x vb y : Int} {nk : NK} {Rr : BitVec 64 → Prop}
+    (hti : σ.tys[i]? = some ti)
+    (heB : EvJ P off toff K cB σ σ1 (fun r => Represents tb r vb) W k0 k1 d)
+    (hcastB : ∀ s, Represents tb (s.get .rax) vb → ∃ s', X86.run castB s = some s' ∧ Rr (s'.get .rax) ∧ Same s s')
+    (hx : σ1.vals[i]? = some x)
+    (hop : ∀ s, Represents t (s.get .rax) (convert t x) → Rr (s.get .rdi) →
+      ∃ s', X86.run (opSeq nk t) s = some s' ∧ Represents tres (s'.get .rax) y ∧ Same s s')
+    (hk0 : k0 ≤ k1) (hk1 : k1 < K) :
+    EvJ P off toff K (opAssignNFJ nk ti t tres (off i) (toff k1) cB castB) σ (σ1.set i (convert ti y))
+      (fun r => Represents ti r (convert ti y)) (i :: W) k0 (k1 + 1) (max (d + 1) 2) := by
+  refine ⟨heB.1, ?_⟩
+  intro m n B hP l hd hsp hB hH
+  obtain ⟨n', rfl⟩ : ∃ n', n = n' + 2 := ⟨n - 2, by omega⟩
+  have hT := l.tmp_lo k1 hk1
+  -- tmp = &A
+  obtain ⟨s4, r4, tmp4, sp4, bp4, mem4⟩ := tmp_store m (toff k1) (off i) (by omega) hT.2
+  have H4 : Holds off σ s4 := hH.of_tmp l hk1 bp4 (fun x hxB hout => mem4 x (by omega) hout)
+  -- *tmp = *tmp op B
+  obtain ⟨m', r', p', H', u'⟩ := opassign_from (dsuf := []) (dd := 0) (kt := k1) hti heB hcastB hx hop DS.nil (Nat.le_refl _) hk1
+    s4 n' B (by rw [bp4]; exact hP) (by rw [bp4]; exact l) (by omega) (by rw [sp4]; exact hsp) (by rw [sp4]; exact hB) H4
+    (addrOf (m.get .rbp) (off i)) (by rw [bp4]; exact tmp4) (by rw [bp4]; simp)
+  refine ⟨m', ?_, p', H', ?_⟩
+  · rw [opAssignNFJ_eq]; exact JRun.append (JRun.ins r4) r'
+  · refine ⟨by rw [u'.rsp, sp4], by rw [u'.rbp, bp4], ?_⟩
+    intro z hz hv ht
+    have hnotT : z.toNat < (addrOf (m.get .rbp) (toff k1)).toNat ∨ (addrOf (m.get .rbp) (toff k1)).toNat + 8 ≤ z.toNat := by
+      by_cases h1 : z.toNat < (addrOf (m.get .rbp) (toff k1)).toNat
+      · exact Or.inl h1
+      · by_cases h2 : (addrOf (m.get .rbp) (toff k1)).toNat + 8 ≤ z.toNat
+        · exact Or.inr h2
+        · exact absurd ⟨k1, hk0, by omega, by omega, by omega⟩ ht
+    rw [u'.mem z (by rw [sp4]; exact hz) (by rw [bp4]; exact hv)
+      (by rw [bp4]; exact fun hh => ht (inTmp_mono hh (Nat.le_refl _) (by omega)))]
+    exact mem4 z hz hnotT
 
 end
 
